@@ -259,6 +259,20 @@ def _fam_rosenbrock(rng, n, spec):
     return f, g, dict(convex=False, complex_safe=True, min_n=2)
 
 
+def _fam_scaled_rosenbrock(rng, n, spec):
+    """Chained Rosenbrock function whose variables live on very different length scales (1e-8 .. 1e16): z = x / S."""
+    S = 10.0 ** rng.uniform(-8, 16, n)
+    f0, g0, _ = _fam_rosenbrock(rng, n, spec)
+
+    def f(x):
+        return f0(x / S)
+
+    def g(x):
+        return g0(x / S) / S
+
+    return f, g, dict(convex=False, complex_safe=False, min_n=2, var_scales=S)
+
+
 def _fam_beale(rng, n, spec):
     def f(x):
         a, y = x[:-1], x[1:]
@@ -497,6 +511,7 @@ _FAMILIES = {
     "qp_quartic": _fam_qp_quartic,
     "qp_softplus": _fam_qp_softplus,
     "rosenbrock": _fam_rosenbrock,
+    "scaled_rosenbrock": _fam_scaled_rosenbrock,
     "beale": _fam_beale,
     "rastrigin": _fam_rastrigin,
     "styblinski_tang": _fam_styblinski,
@@ -520,7 +535,7 @@ def make_problem(spec) -> Problem:
     """spec: family, n, seed, [cond], box, start, [pattern]."""
     fam = spec["family"]
     n = int(spec["n"])
-    if fam in ("rosenbrock", "beale"):
+    if fam in ("rosenbrock", "beale", "scaled_rosenbrock"):
         n = max(n, 2)
     seed = int(spec["seed"])
     rng = np.random.default_rng(subseed("problem", fam, n, seed))
@@ -589,6 +604,10 @@ def make_problem(spec) -> Problem:
         x0 = np.clip(np.abs(x0) * 0.3 + 0.05, lb, ub)
     if meta.get("domain_positive"):
         x0 = np.clip(np.abs(x0) + 0.3, lb, ub)  # start inside the objective's domain whenever the box allows it
+    if meta.get("var_scales") is not None:
+        # box and start expressed in the variables' own units
+        lb, ub = lb * meta["var_scales"], ub * meta["var_scales"]
+        x0 = np.clip(brng.uniform(-1.2, 1.2, n) * meta["var_scales"], lb, ub)
     return Problem(dict(spec), n, f, g, lb, ub, x0, meta)
 
 
